@@ -373,7 +373,7 @@ def annotS : Expr → Bool → Option BinOp → List SeqEl
   | .ident s, _, _ => [sW [(.id s, 0)]]
   | .bin o a b, paren, prev =>
     (if binParen o paren prev then [sW [(.lp, 1)]] else [])
-      ++ annotS a true (some o) ++ [sR [] 1, sW [(.op o, 0)], sW [] 1] ++ annotS b true (some o)
+      ++ annotS a true (some o) ++ [sR [] 1, sW [(.op o, 0)], sW [] 1] ++ annotS b true (rprev o)
       ++ (if binParen o paren prev then [sR [(.rp, 0)] 1] else [])
   | .neg a, paren, _ =>
     (if paren then [sW [(.lp, 1)]] else []) ++ [sW [(.op .minus, 0)]] ++ annotS a true none ++ (if paren then [sR [(.rp, 0)] 1] else [])
@@ -468,7 +468,7 @@ theorem annotS_eq (e : Expr) :
     intro p q h
     simp only [lexWFS] at h
     obtain ⟨a1, a2⟩ := iha.1 true (some o) h.1
-    obtain ⟨b1, b2⟩ := ihb.1 true (some o) h.2
+    obtain ⟨b1, b2⟩ := ihb.1 true (rprev o) h.2
     by_cases hp : binParen o p q = true <;>
       simp [annotS, exprFrags, toks, hp, a1, a2, b1, b2, padded_all, frag_lp, frag_rp, frag_sp_r, frag_sp_w, frag_op, toks_sW, toks_sR, frag_sW, frag_sR, toks_aW, toks_sR, frag_sR, toks_aR]
   | neg a iha =>
@@ -591,7 +591,7 @@ theorem safe_allS (e : Expr) :
     refine ⟨?_, fun _ _ h => absurd h (by simp [lexArgsS]), fun _ _ h => absurd h (by simp [lexItemsS])⟩
     intro p q slt h hpre
     simp only [lexWFS] at h
-    obtain ⟨b1, b2⟩ := ihb.1 true (some o) none h.2 (Or.inl rfl)
+    obtain ⟨b1, b2⟩ := ihb.1 true (rprev o) none h.2 (Or.inl rfl)
     by_cases hp : binParen o p q = true
     · obtain ⟨a1, a2⟩ := iha.1 true (some o) none h.1 (Or.inl rfl)
       simp [annotS, hp, safeSeqS_append, flowSeqS_append, SafeSeqS, flowSeqS, SeqEl.safe, SeqEl.flow, sW, sR, AFrag.prev, AFrag.flow, aW, aR, bodySafe, endAfter, nxt, wf_lp, wf_rp, wf_lb, wf_rb, wf_comma, wf_colon, wf_dot, wf_bslash, wf_bar, wf_allIn, wf_op, wf_not, wf_query, a1, b1]
